@@ -40,7 +40,10 @@ RULE = ("e2e cases: methods (incl. extension methods) x request-targets with per
         "lists with lower-case / absent / end-to-end-named tokens, Accept-Encoding variants) x bodies 0..3000 bytes (thorough: up to 100 KB) sent with "
         "Content-Length / chunked / gzip-labelled x buffered or stream mode in each direction x IP or host-name server x keepHost x compression "
         "minLength {none,0,1,20,100,1000} with bodies at minLength-1/minLength/minLength+1 x Request/ResponseAdaptor body/compress/decompress x backend "
-        "status x backend headers x response framing (Content-Length, chunked, close-delimited) x gzip-labelled responses; one case in 20 follows a boundary schedule: every body-transforming path (proxy compression, transparent gunzip, "
+        "status x backend headers x response framing (Content-Length, chunked, close-delimited) x gzip-labelled responses and other Content-Encoding shapes (GZIP, x-gzip, `deflate, gzip` as one value or two lines, `gzip, gzip`, identity, "
+        "deflate, br, `br, gzip`, `gzip, br`) x load-balance policy (none, roundRobin, random, weightedRandom with/without weights, ipHash, headerHash; one or two "
+        "identical servers) for the Host rule; one case in 20 follows a label schedule (every Content-Encoding shape x ResponseAdaptor decompress buffered/stream, "
+        "proxy compression, ResponseAdaptor compress, untouched); one case in 20 follows a boundary schedule: every body-transforming path (proxy compression, transparent gunzip, "
         "Request/ResponseAdaptor compress and decompress, pass-through; buffered and stream) with a (decoded) body of exactly k x the gzip reader's round "
         "(8 pages), k x {2048, 4096, 8 pages, 16 pages} and one byte off; the gzip oracle is compress/gzip in one shot, not easegress' own reader; hist cases (1 in 10): 3..8 requests against ONE pipeline whose pool has a memoryCache (codes / methods / maxEntryBytes), the same "
         "cacheable request repeated (miss, hits) interleaved with other resources, other methods, Cache-Control no-cache / no-store requests and answers, a distinct backend "
@@ -58,7 +61,7 @@ TRUSTED_BASE = [
 ASSUMPTIONS = [
     "gunzip (gzip b) = Some b (Section hypothesis of C03_response_content / C03_request_faithful)",
     "URL round trip: parsing the request-target built from the escaped path and the raw query yields the same decoded path and raw query (hypothesis of C03_request_faithful; computed per case by net/url in the correspondence)",
-    "responses are labelled with no Content-Encoding or exactly 'gzip' (other codings are opaque to the gateway; a second coding is outside the theorem)",
+    "the content theorems assume a Content-Encoding that is absent or exactly 'gzip'; other labels (several codings, other spellings, unknown codings) are covered by the run's checker only: after undoing the known codings (gzip, x-gzip, deflate, identity) of the delivered label the same data and the same remaining codings must be left as for the backend's message",
     "HEAD requests, 1xx/204/304 responses, Expect: 100-continue, request trailers and repeated User-Agent lines are outside the generators (net/http treats them specially)",
 ]
 
